@@ -15,7 +15,7 @@ CLAIM = ("REDUCED CLAIM (the end-to-end ICP accuracy clause is not claimed, DESI
          "inliers; the reported consensus error is below sigma; every member is within 3 sigma and its stored residual is its residual "
          "under the model (gross outliers are never members). RansacIterations: starts at 1000, stays in [0,1000], never increases, "
          "equals the truncation of log(1-p)/log(1-w^s). Ransac::estimateModel against a nondeterministic model stub: fails without "
-         "drawing when there are too few points, succeeds iff some consensus exceeds the sample size, refits exactly once on success, "
+         "drawing when there are too few points, succeeds iff some consensus exceeds the sample size, on success the last model operation is the refit on the consensus (no sample drawn after it), "
          "draws at most 1000 times")
 BOUNDS = dict(quick="countInliers: N = 6, 7 correspondences (up to 1 duplicate target), previous consensus 0, 6 or 7; iterations: 6..400 points, sample size 3 and 4, two updates; protocol: 5, 8, 12 points with 0, 2, 3 free draw/count results",
               thorough="N up to 10 with up to 3 duplicate targets, previous consensus up to 8; protocol with 4 free rounds")
